@@ -24,8 +24,9 @@ def main() -> int:
     names = {r['t'] for r in rej}
     print('config trace: rejected', sorted(names))
     ok &= names == {'corrupted-field', 'dropped-event'}
-    g = {'t': 'good', 'ev': [{'op': 'call', 't': 1}, {'op': 'call', 't': 2}, {'op': 'ret', 't': 1, 'ok': 'yes'}, {'op': 'ret', 't': 2, 'ok': 'no'}]}
-    b = {'t': 'both-succeed', 'ev': [{'op': 'call', 't': 1}, {'op': 'call', 't': 2}, {'op': 'ret', 't': 1, 'ok': 'yes'}, {'op': 'ret', 't': 2, 'ok': 'yes'}]}
+    ev = lambda op, t, ok='-': {'op': op, 't': t, 'kind': 'c', 'ok': ok}  # noqa: E731
+    g = {'t': 'good', 'ev': [ev('call', 1), ev('call', 2), ev('ret', 1, 'yes'), ev('ret', 2, 'no')]}
+    b = {'t': 'both-succeed', 'ev': [ev('call', 1), ev('call', 2), ev('ret', 1, 'yes'), ev('ret', 2, 'yes')]}
     rej = tlc.validate_traces(ctx, 'guard/GuardTrace', 'guard/GuardTrace.cfg', [g, b])
     print('guard trace: rejected', sorted(r['t'] for r in rej))
     ok &= {r['t'] for r in rej} == {'both-succeed'}
